@@ -423,7 +423,87 @@ func firstDiffKey(a, b string) string {
 	return "?"
 }
 
+// C14 on nested payments: at the outer payment and at every Redeem level, each address the payment
+// hands out decodes (ToOutputScript / FromConfidential) to the script the builder holds for it, and
+// the Redeem kept by a wrapping payment hands out the addresses the wrapped payment had
+func checkC14Nest(t *Toks) string {
+	outer, wrapped, ok := adrNestChain(t)
+	if !ok {
+		return "SKIP bad-case"
+	}
+	level := 0
+	for p := outer; p != nil; p = p.Redeem {
+		if f := c14LevelCheck(p, level); f != "" {
+			return f
+		}
+		if level >= 1 && level-1 < len(wrapped) {
+			if a, b := adrLevelLine(p), adrLevelLine(wrapped[level-1]); a != b {
+				return fail("nest-redeem", fmt.Sprintf("level=%d/%s", level, firstDiffKey(b, a)))
+			}
+		}
+		level++
+	}
+	return "OK"
+}
+
+func c14LevelCheck(p *payment.Payment, level int) string {
+	ms := adrPayMethods(p)
+	// which builder script belongs to which address method
+	want := make([][]byte, 10)
+	switch address.GetScriptType(p.Script) {
+	case address.P2PkhScript:
+		want[0], want[1] = p.Script, p.Script
+	case address.P2ShScript:
+		want[2], want[3] = p.Script, p.Script
+	}
+	if len(p.WitnessScript) > 0 || len(p.WitnessHash) > 0 {
+		if len(p.WitnessHash) == 20 {
+			want[4], want[5] = p.WitnessScript, p.WitnessScript
+		} else {
+			want[6], want[7] = p.WitnessScript, p.WitnessScript
+		}
+	}
+	for i := 0; i < 8; i++ {
+		if want[i] == nil && !(i >= 4 && (len(p.WitnessScript) > 0 || len(p.WitnessHash) > 0)) {
+			continue
+		}
+		if want[i] == nil {
+			continue
+		}
+		m := ms[i]
+		var a string
+		var err error
+		if guard(func() string { a, err = m(); return "" }) == "panic" || err != nil || a == "" {
+			continue
+		}
+		sc, err := address.ToOutputScript(a)
+		if err != nil || !bytes.Equal(sc, want[i]) {
+			return fail("nest-script", fmt.Sprintf("level=%d/method=%d", level, i))
+		}
+		if i%2 == 1 {
+			fc, err := address.FromConfidential(a)
+			if err != nil || !bytes.Equal(fc.Script, want[i]) || p.BlindingKey == nil ||
+				!bytes.Equal(fc.BlindingKey, p.BlindingKey.SerializeCompressed()) {
+				return fail("nest-confidential", fmt.Sprintf("level=%d/method=%d", level, i))
+			}
+		}
+	}
+	// a witness address without a witness script behind it is an address of nothing
+	if len(p.WitnessScript) == 0 {
+		for _, i := range []int{4, 5, 6, 7} {
+			m := ms[i]
+			var a string
+			var err error
+			if guard(func() string { a, err = m(); return "" }) != "panic" && err == nil && a != "" {
+				return fail("nest-script", fmt.Sprintf("level=%d/method=%d/no-witness-script", level, i))
+			}
+		}
+	}
+	return ""
+}
+
 func init() {
+	checks["C14/adrnest"] = checkC14Nest
 	checks["C14/adrhist"] = checkC14Hist
 	checks["C14/adrform"] = checkC14Form
 	checks["C14/adrcase"] = checkC14Case
